@@ -256,6 +256,21 @@ impl Check for C20 {
             }
             // grammar-aware hostile content: the parsers behind a stream (destination header, association request,
             // datagram records) see every field class, not only what random bytes happen to form
+            if target == "http" && g.chance(35) {
+                // requests a proxy must refuse, each aimed at one validation of the HTTP front-end
+                let long = "x".repeat(*g.pick(&[65_000usize, 65_600, 69_000]));
+                bytes = match g.range(0, 8) {
+                    0 => b"GET / HTTP/1.1\r\nUser-Agent: no-host\r\n\r\n".to_vec(),
+                    1 => format!("GET http://192.0.2.60/ HTTP/1.1\r\nHost: 192.0.2.60\r\nX-Long: {}\r\n\r\nbody", long).into_bytes(),
+                    2 => b"CONNECT 192.0.2.61 HTTP/1.1\r\n\r\n".to_vec(),
+                    3 => b"GET http://192.0.2.62:99999/ HTTP/1.1\r\nHost: 192.0.2.62:99999\r\n\r\n".to_vec(),
+                    4 => b"GET http://192.0.2.63/ HTTP/1.1\r\nthis line has no colon\r\nHost 192.0.2.63\r\n\r\n".to_vec(),
+                    5 => b"GET http://192.0.2.64/ HTTP/1.1\r\nHost: \xff\xfe\xfd\r\n\r\n".to_vec(),
+                    6 => b"GET\r\n\r\n".to_vec(),
+                    7 => b"CONNECT [::1 HTTP/1.1\r\nHost: [::1\r\n\r\n".to_vec(),
+                    _ => b"\r\n\r\n".to_vec(),
+                };
+            }
             if target == "uot" {
                 bytes = gen_uot_bytes(&mut g);
             } else if target == "dest" {
@@ -298,7 +313,7 @@ impl Check for C20 {
         out
     }
     fn rule(&self) -> &'static str {
-        "one case = (frames, 50%) 2-25 items fed to a real client or server Session: valid PSH traffic on two streams interleaved with well-formed frames of every command 0-10 and unknown commands x stream-id classes {0, known, unknown, 2^31, 2^32-1} x payloads {empty, random, hostile settings/scheme texts with sizes up to 2^63-1, 0xff x up to 65535, random up to 300}, random junk bytes, and headers that announce more than follows, ended by keep / EOF / reset, with a fault-free sibling pair in the same runtime; (mutate, 22%) two real Sessions exchanging valid traffic through pipes that flip 1-6 bits (anywhere, or aimed at a length or command field) or truncate; (frontends, 28%) 0-70000 random bytes (half of them starting like a valid request) written in 1-5 segments to the SOCKS5 listener, the HTTP listener, or as the content of a UDP-over-TCP stream, or grammar-aware hostile content (every class of isConnect / address type / name field {empty, announcing more than follows, not UTF-8, 255 bytes, unresolvable, literal-looking, resolvable} / truncation / datagram length {0, 1, 65507, 65508, 65535, more or less than announced}) as the association request + records of a UDP-over-TCP stream or as the destination header of an ordinary stream over a real client session (which must afterwards still serve a well-formed stream or be closed, and a sibling tunnel opened on that session beforehand must keep echoing), or silent / junk / half-finished peers on the server's own port, with a well-behaved sibling connection afterwards; panics are caught process-wide, aborts by the worker model, spins by the poll budget; every case is non-trivial; distinct = distinct (plan hash, poll-order fingerprint)"
+        "one case = (frames, 50%) 2-25 items fed to a real client or server Session: valid PSH traffic on two streams interleaved with well-formed frames of every command 0-10 and unknown commands x stream-id classes {0, known, unknown, 2^31, 2^32-1} x payloads {empty, random, hostile settings/scheme texts with sizes up to 2^63-1, 0xff x up to 65535, random up to 300}, random junk bytes, and headers that announce more than follows, ended by keep / EOF / reset, with a fault-free sibling pair in the same runtime; (mutate, 22%) two real Sessions exchanging valid traffic through pipes that flip 1-6 bits (anywhere, or aimed at a length or command field) or truncate; (frontends, 28%) 0-70000 random bytes (half of them starting like a valid request) written in 1-5 segments to the SOCKS5 listener, the HTTP listener (a third of those are requests a proxy must refuse: no Host, a header block beyond 64 KiB, CONNECT without a port, a port above 65535, a line without a colon, bytes that are not UTF-8, a bare method, an unterminated IPv6 literal), or as the content of a UDP-over-TCP stream, or grammar-aware hostile content (every class of isConnect / address type / name field {empty, announcing more than follows, not UTF-8, 255 bytes, unresolvable, literal-looking, resolvable} / truncation / datagram length {0, 1, 65507, 65508, 65535, more or less than announced}) as the association request + records of a UDP-over-TCP stream or as the destination header of an ordinary stream over a real client session (which must afterwards still serve a well-formed stream or be closed, and a sibling tunnel opened on that session beforehand must keep echoing), or silent / junk / half-finished peers on the server's own port, with a well-behaved sibling connection afterwards; panics are caught process-wide, aborts by the worker model, spins by the poll budget; every case is non-trivial; distinct = distinct (plan hash, poll-order fingerprint)"
     }
     fn real_components(&self) -> Vec<&'static str> {
         vec!["Session::recv_loop / handle_frame (all arms), FrameCodec::decode, StringMap::from_bytes, PaddingFactory::new / update_default / generate_record_payload_sizes, write paths, close", "SOCKS5 and HTTP front-ends, Client, Server, TcpProxyHandler::read_socks_addr, udp_proxy::read_initial_request / read_udp_packet (frontends mode)"]
